@@ -51,7 +51,7 @@ CHECKS = {
     },
     "C08": {
         "level": "fault_enumeration",
-        "rule": "rapid-generated store histories (1-10 operations) run on a database wrapper whose hooks copy the three durable files right before and right after EVERY index commit of every primitive store call (this observes the actual order of file and index mutations), plus, for every file growth seen at a pre-commit point, synthesized torn lengths (1 byte, mid-entry, k whole entries, k entries plus part, all but one byte). Every crash image is restarted: both stores must open, equal the list model before or after the interrupted step, keep filter tip <= block tip, and accept and read back further appends. evaluations = histories; counters.crash_images = images restarted. Non-trivial = history with at least one crash point strictly inside an operation; distinct = distinct case JSON",
+        "rule": "rapid-generated store histories (1-10 operations) run on a database wrapper whose hooks copy the three durable files right before and right after EVERY index commit of every primitive store call (this observes the actual order of file and index mutations), plus, for every file growth seen at a pre-commit point, synthesized torn lengths (1 byte, mid-entry, k whole entries, k entries plus part, all but one byte). Every crash image is restarted: both stores must open, equal the list model before or after the interrupted step, keep filter tip <= block tip, and accept and read back further appends. evaluations = histories; counters.crash_images = images restarted. Non-trivial = history with at least one crash point strictly inside an operation; distinct = distinct case JSON Unit bm-crash: block-manager operations (filter-header batch, rollback of 1-6 blocks followed by the first headers of a new branch, stale batch after a rollback) on real stores; the durable files are copied at every index commit (pre and post) and at every yield point between the individual store updates; every image is restarted: both stores open, the block chain is a state the operation passed through, the filter chain is not ahead of it and belongs to it, a block manager can be created on it, writes the missing filter headers and rolls back one block. Non-trivial there = more than two images inside operations.",
         "assumptions": [
             "crash model = process death: writes reach the page cache in program order; power loss / fsync reordering is out of scope",
             "bbolt commits are atomic",
@@ -60,11 +60,14 @@ CHECKS = {
             {"name": "store", "module": "harness", "pkg": "./checks/hdrstore", "test": "TestC08", "tags": "verif",
              "quick": {"checks": 8, "shards": 16, "timeout": 900},
              "thorough": {"checks": 120, "shards": 16, "timeout": 5400, "shrink": "120s"}},
+            {"name": "bm-crash", "module": "harness", "pkg": "./checks/bmsched", "test": "TestC08BM", "tags": "verif",
+             "quick": {"checks": 6, "shards": 8, "timeout": 900},
+             "thorough": {"checks": 150, "shards": 16, "timeout": 5400, "shrink": "60s"}},
         ],
     },
     "C19": {
         "level": "exploration",
-        "rule": "rapid-generated peer scripts (fork-biased: header batches, view changes / reorganisations of any depth, partial filter-header progress, disconnects, clock advances) with a subscriber registered before any peer session exists, on a database wrapper that stamps every filter-header index commit with a global sequence number and the tip it installs; plus generated backlog requests at quiescent moments and in the middle of a batch being announced. Oracles at every quiescence: (1) replaying all received events reproduces the committed chain up to the filter tip, (2) per-event content / ordering, (3) every connected event is received after a commit covering its block, (4) backlog == committed blocks above the requested height; mid-flight backlog + later events replay without gap. Non-trivial = a reorganisation that crosses the filter tip, or a backlog request strictly inside (0, filter tip), or an evaluated mid-flight backlog request; distinct = distinct case JSON",
+        "rule": "rapid-generated peer scripts (fork-biased: header batches, view changes / reorganisations of any depth, partial filter-header progress, disconnects, clock advances) with a subscriber registered before any peer session exists, on a database wrapper that stamps every filter-header index commit with a global sequence number and the tip it installs; plus generated backlog requests at quiescent moments and in the middle of a batch being announced. Oracles at every quiescence: (1) replaying all received events reproduces the committed chain up to the filter tip, (2) per-event content / ordering, (3) every connected event is received after a commit covering its block, (4) backlog == committed blocks above the requested height; mid-flight backlog + later events replay without gap. Non-trivial = a reorganisation that crosses the filter tip, or a backlog request strictly inside (0, filter tip), or an evaluated mid-flight backlog request; distinct = distinct case JSON Unit bm-sched: the same harness-scheduled interleavings of writeCFHeadersMsg and rollBackToHeight as C03's bm-sched unit, with every event received on Notifications() replayed (connected(h) only on top of h-1, disconnected highest first carrying the removed header and the header below it, never-committed blocks tolerated) and compared with the committed chain after every step, plus backlog probes. Non-trivial there = a step with a real overlap.",
         "assumptions": NETSIM_ASSUME + [
             "rule (3) is an external-observer check: an emit-before-commit defect is detected only if the subscriber wins the race against the commit for at least one event of a batch",
             "mid-flight backlog probes are evaluated only when no disconnect was in flight (otherwise the subscriber's starting point is ambiguous)",
@@ -74,6 +77,9 @@ CHECKS = {
             {"name": "netsim", "module": "harness", "pkg": "./checks/c19", "test": "TestC19", "tags": "verif",
              "quick": {"checks": 40, "shards": 16, "timeout": 600, "regress_n": 40},
              "thorough": {"checks": 500, "shards": 16, "timeout": 3600, "shrink": "60s", "regress_n": 300}},
+            {"name": "bm-sched", "module": "harness", "pkg": "./checks/bmsched", "test": "TestC19BM", "tags": "verif",
+             "quick": {"checks": 60, "shards": 8, "timeout": 600},
+             "thorough": {"checks": 2500, "shards": 16, "timeout": 3600, "shrink": "60s"}},
         ],
     },
     "C13": {
@@ -106,7 +112,7 @@ CHECKS = {
     },
     "C03": {
         "level": "exploration",
-        "rule": "rapid-generated cases: a block tree with wallet transactions, block headers pre-filled (optionally lagging), filter headers pre-filled to a generated height, one honest peer connected first plus 1-5 peers that are honest / lie consistently with a filter omitting an output script / advertise a hash their filter does not match / advertise a hash and serve no filter / lie unprovably (superset filter) / lie only in filter checkpoints / stay silent, from a generated height; events connect / drop / chain growth / reorganisation / clock advance. At every quiescence: filter tip <= block tip, every entry is dSHA256(served filter hash || previous entry) for the block at that height of the current chain, by-hash lookups agree, no banned peer stays connected, the honest peer is never banned; when every liar is provable the committed entries equal ground truth; at the end every provable liar that put a lie on the wire below the final filter tip is banned. Two units: at-tip worlds (<1000 blocks) and checkpointed worlds (1000-2600 blocks). Non-trivial = some liar actually served falsified data; distinct = distinct case JSON",
+        "rule": "rapid-generated cases: a block tree with wallet transactions, block headers pre-filled (optionally lagging), filter headers pre-filled to a generated height, one honest peer connected first plus 1-5 peers that are honest / lie consistently with a filter omitting an output script / advertise a hash their filter does not match / advertise a hash and serve no filter / lie unprovably (superset filter) / lie only in filter checkpoints / stay silent, from a generated height; events connect / drop / chain growth / reorganisation / clock advance. At every quiescence: filter tip <= block tip, every entry is dSHA256(served filter hash || previous entry) for the block at that height of the current chain, by-hash lookups agree, no banned peer stays connected, the honest peer is never banned; when every liar is provable the committed entries equal ground truth; at the end every provable liar that put a lie on the wire below the final filter tip is banned. Two units: at-tip worlds (<1000 blocks) and checkpointed worlds (1000-2600 blocks). Non-trivial = some liar actually served falsified data; distinct = distinct case JSON Unit bm-sched: the block manager's writeCFHeadersMsg and rollBackToHeight(+header write) run directly on real stores on two goroutines which the harness parks at the client's named yield points (generated: who starts first, where it is held, where the other one is held; also stale batches delivered after a rollback); after every step filter tip <= block tip, every entry belongs to the block at that height of the current chain, no entry of a disconnected block is served, the batch took effect wholly or not at all. Non-trivial there = a step in which the first operation was actually held inside its critical section while the other one ran or blocked.",
         "assumptions": NETSIM_ASSUME + [
             "the honest peer is connected before any other peer (dial gate) and never dropped, so it is among the responders of every filter-header query",
             "the matching direction of the hard-coded mainnet/testnet filter-header checkpoints cannot be generated (would need a hash preimage); generated networks have no hard-coded filter checkpoints",
@@ -118,6 +124,9 @@ CHECKS = {
             {"name": "netsim-checkpointed", "module": "harness", "pkg": "./checks/c03", "test": "TestC03Big", "tags": "verif",
              "quick": {"checks": 8, "shards": 4, "timeout": 600, "regress_n": 12},
              "thorough": {"checks": 120, "shards": 4, "timeout": 3600, "shrink": "60s", "regress_n": 60}},
+            {"name": "bm-sched", "module": "harness", "pkg": "./checks/bmsched", "test": "TestC03BM", "tags": "verif",
+             "quick": {"checks": 60, "shards": 8, "timeout": 600},
+             "thorough": {"checks": 2500, "shards": 16, "timeout": 3600, "shrink": "60s"}},
         ],
     },
     "C11": {
@@ -268,12 +277,15 @@ def _race_units():
         for u in CHECKS[pid]["units"]:
             if u["name"].endswith("checkpointed"):
                 continue
+            if u["name"] == "bm-sched" and pid != "C03":
+                continue  # same scenarios as C03's unit
             r = dict(u)
             r["name"] = "race-" + pid.lower() + "-" + u["name"]
             r["race"] = True
             r["gomaxprocs"] = 8
-            r["quick"] = {"checks": q, "shards": 4, "timeout": 900, "shrink": "5s"}
-            r["thorough"] = {"checks": th, "shards": 8, "timeout": 5400, "shrink": "5s"}
+            k = 10 if u["name"] == "bm-sched" else 1
+            r["quick"] = {"checks": q * k, "shards": 4, "timeout": 900, "shrink": "5s"}
+            r["thorough"] = {"checks": th * (k * 4 if k > 1 else 1), "shards": 8, "timeout": 5400, "shrink": "5s"}
             units.append(r)
     return units
 
@@ -281,7 +293,7 @@ def _race_units():
 CHECKS["C18"] = {
     "level": "exploration",
     "detect_race": True,
-    "rule": "the test binaries of the C01, C03, C04, C05, C06, C09, C11, C12, C15, C17 and C19 checks are rebuilt with -race and a reduced budget of their rapid-generated executions is run (GOMAXPROCS 8, several shards); the oracle is the Go race detector: any report with a frame in neutrino code is a violation, a report between harness frames only is a harness error. evaluations = executions run under the detector; non-trivial = executions the underlying check classifies as non-trivial (every network-simulation execution runs the block handler, the filter-header handler, the peer handlers, the query dispatcher and the harness callers concurrently); distinct = distinct case JSON per unit",
+    "rule": "the test binaries of the C01, C03, C04, C05, C06, C09, C11, C12, C15, C17 and C19 checks are rebuilt with -race and a reduced budget of their rapid-generated executions is run (GOMAXPROCS 8, several shards); the oracle is the Go race detector: any report with a frame in neutrino code is a violation, a report between harness frames only is a harness error. evaluations = executions run under the detector; non-trivial = executions the underlying check classifies as non-trivial (the harness-scheduled block manager interleavings of C03's bm-sched unit are included; every network-simulation execution runs the block handler, the filter-header handler, the peer handlers, the query dispatcher and the harness callers concurrently); distinct = distinct case JSON per unit",
     "assumptions": [
         "the detector only sees races that occur in an explored execution",
         "property violations reported by the underlying checks are ignored here (they belong to those properties)",
